@@ -918,7 +918,7 @@ def shrink_candidates(case):
 
 MANIFEST = {
     "level_text": (
-        "Machine-checked proofs (Coq 8.16, 58 theorems, all closed under the global context). (a) The extracted certificate "
+        "Machine-checked proofs (Coq 8.16, 67 theorems, all closed under the global context). (a) The extracted certificate "
         "checker emd_cert_ok is sound for all sizes and inputs: acceptance of (P, Q, C, penalty, d, F, alpha, beta, gamma) "
         "implies that d is exactly the transportation optimum plus penalty*|sum P - sum Q| of the property text (also against "
         "fractional flows) and that F is a feasible integral flow whose cost reproduces d; the value is unique; zero padding "
@@ -942,8 +942,8 @@ MANIFEST = {
         "unreachable through emd_hat_impl's construction except at the artificial node."),
     "level_note": (
         "Trusted: Coq kernel + vm_compute; extraction (ExtrOcamlBasic only) and the S-expression driver; the Python harness. "
-        "NOT proved (named in Props/C10.v): that the returned x lists carry the capacity flow (x_caps_consistent); that the run never fails; the read_back / my_dist book-keeping through the node "
-        "renaming; that the artificial node is never used (the flag is never set: checked per case, 0 of ~150 000 runs). The "
+        "NOT proved (named in Props/C10.v): that the graph reduction is value-preserving (graph_reduction_correct_on); that the run never fails (mcf_no_fail_if_flag_clear: the augmentation half is proved, C10_mcf_no_fail_if_flag_clear_partial - a step with a clear flag fails only if compute_shortest_path returns None; csp_total is open); "
+        "that the artificial node is never used (the flag is never set: checked per case, 0 of ~150 000 runs). The "
         "end-to-end statement therefore still rests on the certificate computed inside the algorithm-level model and on the "
         "per-case certificate check of the implementation's output. int is modelled by Z; int32 overflow of the answer is "
         "excluded by generator bounds. KNOWN FINDINGS, none excluded, all generated in every run in forked processes with a 5 s limit: F25 = int32 "
@@ -962,10 +962,16 @@ MANIFEST = {
         "program must return the implementation's distance and flow, and F25 may only be claimed where it is false. "
         "C10_prog_equals_ll (proved): the exact run of that program IS the line-level model the optimality theorems are "
         "about, so the chain int32 code as written = program model (correspondence) = exact program = line-level model is "
-        "closed; composed at the solver level without open premise (C10_mcf_int32_optimal_below_bound: below the bound and "
-        "with the flag clear, what min_cost_flow as written returns is the Done state whose capacity flow is of minimum "
-        "cost) and end to end as C10_emd_int32_correct_below_bound_partial, whose remaining premises are exactly: flag "
-        "clear (per case) and read_back_bookkeeping with x_caps_consistent (open). In the quick tier the program model is "
+        "closed; composed at the solver level without open premise (C10_mcf_int32_returns_min_cost: below the bound and "
+        "with the flag clear, the number min_cost_flow as written returns is THE MINIMUM COST of the graph it was given - "
+        "the x lists carry the capacity flow, C10_x_caps_consistent, and their cost is its cost, "
+        "C10_mcf_dist_is_capflow_cost) and end to end down to the reduced graph (C10_emd_int32_dist_below_bound, full: d = "
+        "pre-flow cost + minimum cost of the reduced graph + |sum P - sum Q| * penalty, the reduced graph being well formed, "
+        "C10_reduce_wf; read_back cell by cell = net capacity flow, C10_read_back_net_capacity). "
+        "C10_emd_int32_correct_below_bound_partial now has exactly two premises left: flag "
+        "clear (per case) and graph_reduction_correct_on, a statement about the graph reduction of emd_hat_impl.hpp alone "
+        "(thresholding via the transhipment node, dropped bins, swap, padding, metric pre-flow are value-preserving; no "
+        "solver, no int32) - open, so the end-to-end statement still rests on the certificates. In the quick tier the program model is "
         "run on every fork-isolated case and on one in three of the other cases up to 8x8 bins; on all of them in the "
         "thorough tier."),
     "technique": "Coq proof of a certificate checker run on the implementation's output + two executable models (certifying, and line-level with exact flow correspondence) + run-time-checked hypothesis flag",
